@@ -47,7 +47,7 @@ CHECKS = {
          "Generated LSP sets (orders 2..24 even/odd, stages 1..4, alpha, linear/log gain, minimal spacing) compared in the time domain (1e-6 of the peak) and in log-magnitude (0.001 neper within 100 dB of the peak); the same after generated frame histories (frame period 1, and long frames on one vocoder); generated LSP voice FILES: engine output == Vocoder built from the stage / gain convention / alpha written into the file.",
          "Truncation of the finite measurement window is cancelled by truncating the reference identically.", "4/C13"),
  "C14": ("exploration", "PBT, metamorphic: pulse responses with and without the postfilter vs the closed-form (1+beta) law and energy equality",
-         "Generated cepstra x beta: spectral relation constant within 0.005 neper, energy within 1 %, bitwise no-op for beta = 0 and length 2; the same after generated frame histories; the first pulse after unvoiced frames (isolated by differencing a 20-Hz and a 40-Hz rendering) equals the stationary response.",
+         "Generated cepstra x beta: spectral relation constant within 0.005 neper, energy within 1 %, bitwise no-op for beta = 0 and length 2; the same after generated frame histories; the first pulse after unvoiced frames (isolated by differencing a 20-Hz and a 40-Hz rendering) equals the stationary response; engine level: a beta set through the condition (log-uniform from 1e-4) reaches the vocoder unchanged.",
          "Measured in frame 2 (stationary coefficients); cases outside the Pade-accurate range are rejected (counted).", "4/C14"),
  "C15": ("exploration", "PBT, metamorphic relation against h = 0 on hook trajectories + direct check of the public clamp",
          "Generated engines/utterances/conditions x h in [-24,24]: durations, voicing, spectrum and low-pass trajectories bitwise invariant; voiced log-F0 shifted by h ln2/12 within 1e-8 unless a voiced state reaches the clamp.",
@@ -56,7 +56,7 @@ CHECKS = {
          "Generated engines (MLSA and LSP) x v in [-60,60]: sample-wise gain 10^(v/20) at 1e-12, trajectories untouched, getter round-trip 1e-9.",
          "Non-finite samples (runaway filters) must be non-finite in both runs.", "4/C16"),
  "C17": ("exploration", "PBT: all input forms compared bitwise; grammar-aware corruption of label text with an Ok/LabelError-only oracle",
-         "Every ToLabels form incl. const-size arrays of 6 sizes, blank lines and time stamps; thousands of corrupted lines per run (12 operators) must yield Ok or a label error, never a panic.",
+         "Every ToLabels form incl. const-size arrays of 6 sizes, blank lines and time stamps; thousands of corrupted lines per run (13 operators) must yield Ok or a label error, never a panic, with the verdict an independent line grammar gives; kept time stamps equal the written decimal value in 100 ns units.",
          "With alignment on only finite times below 10 minutes are in the domain.", "4/C17"),
  "C18": ("fault_enumeration", "deterministic single-fault grid + generated single/double/triple faults on valid voice files, process-isolated, with counting allocator and hang monitor",
          "Complete grid (every header number x 15 replacements incl. non-ASCII digits, every header line deleted/duplicated, every boundary truncation, every single-character substitution - 17 structural characters and the 8 one-bit errors - at every position of the header / tree / window text of generated voices and of the bundled header) on the bundled voice and 20 generated voices, plus thousands of generated multi-faults incl. tree/question edits and byte flips; oracle: Ok or Err, no panic, bounded heap, termination. An abort or hang of the loader is attributed by re-running the in-flight case in a fresh process.",
